@@ -4,28 +4,53 @@ from framework import Case
 import ring_common as R
 
 PROP = 'C05'
-BUILDS, TRANSLATORS, MINIMISE, SHARD_TIMEOUT, ASSUMPTIONS, RULE = R.BUILDS, R.TRANSLATORS, R.MINIMISE, R.SHARD_TIMEOUT, R.ASSUMPTIONS, R.RULE
-EXTRA_THEOREM_MODULES = R.EXTRA_THEOREM_MODULES
+BUILDS, TRANSLATORS, MINIMISE, SHARD_TIMEOUT, ASSUMPTIONS = R.BUILDS, R.TRANSLATORS, R.MINIMISE, R.SHARD_TIMEOUT, R.ASSUMPTIONS
+RULE = R.RULE + ('; C05 additionally generates stages that mix a mutable handler with other handlers (about one case in eight, '
+                 'known finding F9) and judges every slot access by the slot-exclusion and vector-clock oracles')
+EXTRA_THEOREM_MODULES = ['DcVerif.Lemmas.Ring', 'DcVerif.Lemmas.RingMulti', 'DcVerif.Lemmas.RingHB']
 classify, nontrivial = R.classify, R.nontrivial
 
 
 def corpus():
-    return R.corpus_cases(PROP)
+    return R.corpus_cases(PROP) + [
+        # F9: one stage holding a mutable and an immutable handler — both access the same slot with nothing between them
+        Case('n=4 prod=single wait=spin stages=mi writers=2,1 sched=random:3:64 budget=60000', [], tags=('corpus', 'F9-witness')),
+        Case('n=4 prod=single wait=spin stages=i/im writers=2,3,1 sched=random:7:128 budget=60000', [], tags=('corpus', 'F9-witness')),
+    ]
 
 
 def generate(rng, tier):
     for _ in range(120 if tier == 'quick' else 12000):
-        yield R.gen_case(rng, tier)
+        # about one case in eight contains a stage that mixes a mutable handler with others (known finding F9)
+        yield R.gen_case(rng, tier, allow_f9=rng.random() < 0.5)
+
+
+F9_SIGNATURE = {'same_stage_handlers': '>=2', 'mutable_in_stage': True}
+_UNORDERED = re.compile(r'^SPECFAIL C05 unordered conflicting accesses to slot \d+: H(\d+)\.(\d+) seq \d+ \((write|read)\) '
+                        r'vs access #\d+ of H(\d+)\.(\d+) \((write|read)\)')
+
+
+def _stages(case):
+    m = re.search(r'stages=(\S+)', case.header)
+    return m.group(1).split('/') if m else []
 
 
 def signatures(case, lines):
+    """Every SPECFAIL line must be explained on its own. The only explained shape: the clock oracle reports two
+    *handlers of the same stage* as unordered, that stage holds >= 2 handlers and at least one of the two is mutable
+    according to the case header (F9). Producer/handler pairs, pairs of different stages, 'overwritten before consumed'
+    lines and anything else are unexplained (-> VIOLATION)."""
+    st = _stages(case)
     out = []
     for l in lines:
-        m = re.search(r'delivered≠published kind=(\S+) missing=\[([^\]]*)\] extra=\[\] producer=(\w+)', l)
-        if m and m.group(3) == 'single' and m.group(2).strip() == '0':
-            out.append({'producer': 'single', 'missing': [0]})
-        elif m and m.group(3) == 'multi' and m.group(1) == 'stranded-tail':
-            out.append({'producer': 'multi', 'kind': 'stranded-tail'})
-        else:
-            out.append(None)
+        m = _UNORDERED.match(l)
+        sig = None
+        if m:
+            k1, j1, k2, j2 = int(m.group(1)), int(m.group(2)), int(m.group(4)), int(m.group(5))
+            if k1 == k2 and j1 != j2 and k1 < len(st) and max(j1, j2) < len(st[k1]) and len(st[k1]) >= 2:
+                mut1, mut2 = st[k1][j1] == 'm', st[k1][j2] == 'm'
+                # the oracle calls an access a write exactly when its handler is mutable: cross-check with the header
+                if (mut1 or mut2) and (m.group(3) == 'write') == mut1 and (m.group(6) == 'write') == mut2:
+                    sig = dict(F9_SIGNATURE)
+        out.append(sig)
     return out
